@@ -24,7 +24,7 @@ func PStep(s PState, c Call) PState {
 			return PStyling
 		}
 		return s
-	case "hires":
+	case "hires", "rast":
 		return s
 	case "csel", "nsel", "lod":
 		if s == PDrawing {
